@@ -290,3 +290,6 @@ int vrt_thread_count(void)
     return n;
 }
 int vrt_fd_count(void) { int n = count_dir("/proc/self/fd"); return n > 0 ? n - 1 : n; /* minus the DIR's own fd */ }
+
+/* used by verif_wrap_lacon.c */
+void vrt_emit(const char *name, int p, int nargs, const long *args) { if (LOG_ON) emit(name, p, nargs, args, 0, 0); }
